@@ -1906,3 +1906,96 @@ mod tests {
         Ok(())
     }
 }
+
+#[cfg(feature = "verif-hooks")]
+impl KDTree {
+    /// verif hook: build tree from raw nodes `(color, color_index, dim, left, right)`,
+    /// root is the last node
+    pub fn verif_from_raw(
+        nodes: Vec<([u8; 3], usize, usize, Option<usize>, Option<usize>)>,
+    ) -> Self {
+        let mut kd_nodes = Vec::with_capacity(nodes.len());
+        for (color, color_index, dim, left, right) in nodes {
+            kd_nodes.push(KDNode {
+                color,
+                color_index,
+                dim,
+                left,
+                right,
+            });
+        }
+        Self { nodes: kd_nodes }
+    }
+
+    /// verif hook: number of nodes
+    pub fn verif_len(&self) -> usize {
+        self.nodes.len()
+    }
+
+    /// verif hook: raw node `(color, color_index, dim, left, right)`
+    pub fn verif_node(
+        &self,
+        index: usize,
+    ) -> ([u8; 3], usize, usize, Option<usize>, Option<usize>) {
+        let node = &self.nodes[index];
+        (
+            node.color,
+            node.color_index,
+            node.dim,
+            node.left,
+            node.right,
+        )
+    }
+}
+
+/// Verification hooks: access to private kernels
+#[cfg(feature = "verif-hooks")]
+pub mod verif_hooks {
+    use super::*;
+
+    pub const KITTY_MAX_ID: u64 = super::KITTY_MAX_ID;
+
+    pub fn kitty_image_id(img: &Image) -> u64 {
+        super::kitty_image_id(img)
+    }
+
+    pub fn kitty_placement_id(pos: Position) -> u64 {
+        super::kitty_placement_id(pos)
+    }
+
+    pub fn kitty_placement_to_pos(placement_id: u64) -> Position {
+        super::kitty_placement_to_pos(placement_id)
+    }
+
+    /// Indices produced by `OcTreePath` for the color
+    pub fn octree_path(rgba: RGBA) -> [usize; 8] {
+        let mut out = [usize::MAX; 8];
+        for (slot, index) in out.iter_mut().zip(OcTreePath::new(rgba)) {
+            *slot = index;
+        }
+        out
+    }
+
+    /// `OcTreeInfo::join` on `(leaf_count, color_count, min_color_count)` triples
+    pub fn octree_info_join(
+        lhs: (usize, usize, Option<usize>),
+        rhs: (usize, usize, Option<usize>),
+    ) -> (usize, usize, Option<usize>) {
+        let info = |(leaf_count, color_count, min_color_count)| OcTreeInfo {
+            leaf_count,
+            color_count,
+            min_color_count,
+        };
+        let out = info(lhs).join(info(rhs));
+        (out.leaf_count, out.color_count, out.min_color_count)
+    }
+
+    /// `(leaf_count, color_count, min_color_count)` maintained by the octree
+    pub fn octree_info(tree: &OcTree) -> (usize, usize, Option<usize>) {
+        (
+            tree.info.leaf_count,
+            tree.info.color_count,
+            tree.info.min_color_count,
+        )
+    }
+}
